@@ -431,3 +431,36 @@ func VerifHarness_C09_MonthClampKeepsTheTimeOfDay() {
 	}
 	verifrt.Reach("end")
 }
+
+// C09: the sum has the UTC offset of the value - also for the precisions whose text writes no offset (year, month, day):
+// a dateTime element of such a precision carries its zone, and `+` must not read its own rendering back as UTC. Zone,
+// precision, unit and amount from menus; `x + q` is compared with `x - (-q)`, which does not go through text.
+func VerifHarness_C09_AdditionKeepsTheOffsetOfTheElement() {
+	zone := []string{"+05:30", "-08:00", "Z", "+14:00"}[verifrt.Choose("zone", 4)]
+	p := []dtpb.DateTime_Precision{dtpb.DateTime_YEAR, dtpb.DateTime_MONTH, dtpb.DateTime_DAY}[verifrt.Choose("precision", 3)]
+	unit := []string{"year", "month", "day"}[verifrt.Choose("unit", 3)]
+	n := []int{1, -1, 13}[verifrt.Choose("n", 3)]
+	// local midnight of 2020-01-31 in that zone
+	zones := map[string]int64{"+05:30": 19800, "-08:00": -28800, "Z": 0, "+14:00": 50400}
+	in := &dtpb.DateTime{ValueUs: (1580428800 - zones[zone]) * 1000000, Timezone: zone, Precision: p}
+	dt, err := DateTimeFromProto(in)
+	verifrt.Assume(err == nil)
+	sum, err := dt.Add(verifQty(n, unit+"s"))
+	verifrt.Assert(err == nil, "calendar-amount-is-accepted")
+	if err != nil {
+		return
+	}
+	got := sum.ToProtoDateTime()
+	sameOffset := got.Timezone == zone || (zone == "Z" && (got.Timezone == "+00:00" || got.Timezone == "UTC")) // one offset, three spellings
+	verifrt.Assert(sameOffset && got.Precision == p, "sum-has-the-offset-and-precision-of-the-value")
+	// units at or above the precision: no conversion or truncation is involved, and '-' of the opposite amount is the same step
+	rank := map[string]int{"year": 0, "month": 1, "day": 2}
+	if rank[unit] <= int(p-dtpb.DateTime_YEAR) {
+		diff, err2 := dt.Sub(verifQty(-n, unit+"s"))
+		verifrt.Assert(err2 == nil && sum.String() == diff.String(), "adding-equals-subtracting-the-opposite-amount")
+		if p == dtpb.DateTime_DAY && err2 == nil {
+			verifrt.Assert(got.ValueUs == diff.ToProtoDateTime().ValueUs, "sum-is-the-same-instant-as-the-difference-of-the-opposite-amount")
+		}
+	}
+	verifrt.Reach("end")
+}
